@@ -14,6 +14,7 @@ import (
 	"strconv"
 	"strings"
 	"testing"
+	"time"
 
 	"pgregory.net/rapid"
 )
@@ -84,7 +85,7 @@ type c02Txn struct {
 
 func TestC02(t *testing.T) {
 	V.Rule("lab: (c) one configuration with two entries under proxies: whose host tables map the same name to different machines (and the global table to a third): responses whose next Via names it, sent to either service in any order, go where the receiving service's table says. (a) responses with 1-6 Via entries over 1-6 header lines (full/compact/odd-case names, ',' / ', ' joins), the entry beneath the top one naming a harness endpoint by IPv4 literal or host-table name (or an unresolvable name), transports UDP/TCP/udp/Tcp and unsupported TLS/SCTP/WS, port present or absent (5060), received / rport absent / valueless / numeric / non-numeric, maddr, ttl, unknown parameters in any order, malformed second entries, every status class, sent from backend and non-backend addresses; (b) rapid state-machine histories over 4 user agents (UDP and TCP ingress, own Via stacks of 1-3 entries, rport requested or not) and UDP/TCP backends answering outstanding transactions in any order, 1xx before final. Oracle: (a) reference model for the destination (received over sent-by host; numeric rport over sent-by port only with received; default 5060; unsupported transport, unresolvable host, no or undecodable remaining Via => nothing), exactly one reception there and nothing elsewhere after a FIFO barrier, remaining Via entries textually intact and in order; (b) the response arrives at the socket/connection the request came from with exactly the Via stack the user agent sent (first entry modulo received/rport). non-trivial = >= 3 Via entries in >= 2 lines, or received/rport present, or a drop case; for (b) >= 2 transactions open at once; distinct by message / history")
-	V.Require("burst of requests answered", "same Via lines sent again", "relayed:udp", "relayed:tcp", "drop:unsupported transport", "drop:no remaining via", "drop:malformed via", "drop: decodable Via entry below the undecodable one", "drop:unresolvable host", "received present", "rport numeric with received", "rport without received (ignored)", "port absent (5060)", ">=3 vias in >=2 lines", "history: >=2 transactions open", "history: answered out of order", "history: tcp ingress", "history: tcp backend", "history: CANCEL with the INVITE's branch")
+	V.Require("tcp hop had ended the connection the proxy held to it", "burst of requests answered", "same Via lines sent again", "relayed:udp", "relayed:tcp", "drop:unsupported transport", "drop:no remaining via", "drop:malformed via", "drop: decodable Via entry below the undecodable one", "drop:unresolvable host", "received present", "rport numeric with received", "rport without received (ignored)", "port absent (5060)", ">=3 vias in >=2 lines", "history: >=2 transactions open", "history: answered out of order", "history: tcp ingress", "history: tcp backend", "history: CANCEL with the INVITE's branch")
 	svc, err := newStdSvc(stdVariant{NoReceived: [3]string{"", "true", ""}})
 	if err != nil {
 		V.HarnessError(t, "cannot start lab instance: %v", err)
@@ -210,6 +211,21 @@ func TestC02(t *testing.T) {
 		expText := fmt.Sprintf("-> %+v", hop)
 		if !ok {
 			expText = "sent nowhere (" + why + ")"
+		}
+		if ok && hop.Proto == "tcp" && rapid.IntRange(0, 3).Draw(rt, "the tcp hops have ended the connections they had accepted") == 0 {
+			// A hop that ends an idle connection in an orderly way and keeps listening:
+			// the response that follows the Via chain to it is delivered all the same
+			// (over a new connection).
+			ended := 0
+			for _, e := range s.eps {
+				if e.tcpL != nil && e.ip == hop.IP {
+					ended += e.hangUp()
+				}
+			}
+			if ended > 0 {
+				time.Sleep(time.Duration(rapid.IntRange(2, 40).Draw(rt, "ms since the hop hung up")) * time.Millisecond)
+				V.Class("tcp hop had ended the connection the proxy held to it")
+			}
 		}
 		V.Journal(t.Name()+"/single", c02Case{from, entry, jsonBytes(wire), expText})
 		send := func(b []byte) error { return sender.sendUDP(l.Addr, l.UDPPort, b) }
